@@ -599,6 +599,17 @@ def run(ctx):
     ctx.rule('C07.R3', 'home-only callbacks (shared rule)', floor=8)
     for fam in SA:
         c07.r3_callbacks(ctx, fam)
+    ctx.rule('C06.R1', 'a callback message for an unknown client or id is a '
+             'no-op on the manager: it creates no table entry (an empty '
+             'callbacks[sid] left behind makes _generate_ack_id raise '
+             'KeyError for every later emit-with-callback to that client, '
+             'i.e. the valid messages that follow are no longer processed) '
+             '(shared rule)', floor=8)
+    from . import msgpath
+    from ..util import MANAGER
+    for fam in SA:
+        msgpath.callback_typestate(ctx, MANAGER[fam], 'trigger_callback',
+                                   ('sid', 'id'), 'C06.R1')
     ctx.rule('C15.R5', 'retry loops: handler stays in the loop, back-off '
              'capped, publish tries at most twice', floor=8)
     backends = ['RedisManager', 'AsyncRedisManager']
